@@ -292,4 +292,114 @@ theorem loadList_status (P : Outcome LoadErr Unit → Prop) (hok : P (.ok ())) (
 
 end nocrash
 
+/-! ## `std::fs::canonicalize` on a tree: the result is a fixed point -/
+
+def isNormalC : Comp → Bool
+  | .normal _ => true
+  | _ => false
+
+/-- a resolved path: the root followed by normal components, and resolving it again reproduces it. -/
+def ResolvedInv (t : Tree) (cur : Path) : Prop :=
+  ∃ ns : List Comp, (∀ c ∈ ns, isNormalC c = true) ∧ cur = .root :: ns ∧ ns.foldl (resolveStep t) (some [.root]) = some cur
+
+theorem resolveStep_none (t : Tree) : ∀ cs : List Comp, cs.foldl (resolveStep t) none = none := by
+  intro cs
+  induction cs with
+  | nil => rfl
+  | cons c cs ih => simpa [List.foldl_cons, resolveStep] using ih
+
+theorem resolvedInv_step (t : Tree) (cur cur' : Path) (c : Comp) (hi : ResolvedInv t cur)
+    (hs : resolveStep t (some cur) c = some cur') : ResolvedInv t cur' := by
+  obtain ⟨ns, hns, rfl, hf⟩ := hi
+  cases c with
+  | root => simp [resolveStep] at hs; subst hs; exact ⟨[], by simp, rfl, rfl⟩
+  | cur =>
+    simp only [resolveStep] at hs
+    split at hs
+    · simp at hs; subst hs; exact ⟨ns, hns, rfl, hf⟩
+    · simp at hs
+  | normal s =>
+    simp only [resolveStep] at hs
+    split at hs
+    next hcond =>
+      simp at hs
+      subst hs
+      refine ⟨ns ++ [.normal s], ?_, by simp, ?_⟩
+      · intro c hc
+        rcases List.mem_append.1 hc with h | h
+        · exact hns c h
+        · simp at h; subst h; rfl
+      · rw [List.foldl_append, hf]
+        have hcond' : (t.isDir (Comp.root :: ns) && t.pathExists (Comp.root :: ns ++ [Comp.normal s])) = true := hcond
+        simp only [List.foldl_cons, List.foldl_nil, resolveStep, hcond', if_true]
+        simp
+    · simp at hs
+  | parent =>
+    simp only [resolveStep] at hs
+    split at hs
+    · simp at hs
+      subst hs
+      -- pop (root :: ns)
+      rcases List.eq_nil_or_concat ns with rfl | ⟨ns', x, hcc⟩
+      · exact ⟨[], by simp, by simp [pop, parent], rfl⟩
+      · rw [List.concat_eq_append] at hcc
+        subst hcc
+        have hx : isNormalC x = true := hns x (by simp)
+        have hpop : pop (.root :: (ns' ++ [x])) = .root :: ns' := by
+          have hl : (Comp.root :: (ns' ++ [x])).getLast? = some x := by
+            rw [show Comp.root :: (ns' ++ [x]) = (Comp.root :: ns') ++ [x] by simp]
+            exact List.getLast?_concat
+          have hd : (Comp.root :: (ns' ++ [x])).dropLast = .root :: ns' := by
+            rw [show Comp.root :: (ns' ++ [x]) = (Comp.root :: ns') ++ [x] by simp]
+            exact List.dropLast_concat
+          cases x <;> simp [isNormalC] at hx
+          simp [pop, parent, hl, hd]
+        rw [hpop]
+        refine ⟨ns', fun c hc => hns c (by simp [hc]), rfl, ?_⟩
+        rw [List.foldl_append] at hf
+        cases h0 : ns'.foldl (resolveStep t) (some [.root]) with
+        | none => rw [h0] at hf; simp [resolveStep] at hf
+        | some c0 =>
+          rw [h0] at hf
+          cases x with
+          | normal nm =>
+            simp only [List.foldl_cons, List.foldl_nil, resolveStep] at hf
+            split at hf
+            · simp at hf
+              have : c0 ++ [Comp.normal nm] = (Comp.root :: ns') ++ [Comp.normal nm] := by simpa using hf
+              exact congrArg some (List.append_cancel_right this)
+            · simp at hf
+          | root => simp [isNormalC] at hx
+          | cur => simp [isNormalC] at hx
+          | parent => simp [isNormalC] at hx
+    · simp at hs
+
+theorem resolvedInv_foldl (t : Tree) : ∀ (cs : List Comp) (cur q : Path), ResolvedInv t cur →
+    cs.foldl (resolveStep t) (some cur) = some q → ResolvedInv t q := by
+  intro cs
+  induction cs with
+  | nil => intro cur q hi h; simp at h; subst h; exact hi
+  | cons c cs ih =>
+    intro cur q hi h
+    simp only [List.foldl_cons] at h
+    cases hs : resolveStep t (some cur) c with
+    | none => rw [hs, resolveStep_none] at h; cases h
+    | some cur' => rw [hs] at h; exact ih cur' q (resolvedInv_step t cur cur' c hi hs) h
+
+/-- a successfully resolved path resolves to itself. -/
+theorem resolveReal_fixed (t : Tree) (p q : Path) (h : resolveReal t p = some q) : resolveReal t q = some q := by
+  unfold resolveReal at h
+  split at h
+  · next rest =>
+    obtain ⟨ns, _, rfl, hf⟩ := resolvedInv_foldl t rest [.root] q ⟨[], by simp, rfl, rfl⟩ h
+    simpa [resolveReal] using hf
+  · cases h
+
+/-- `ProdFileSystem::canonicalize_path` (on a tree without symbolic links) is idempotent. -/
+theorem prodCanon_idem (t : Tree) (p : Path) : prodCanon t (prodCanon t p) = prodCanon t p := by
+  unfold prodCanon
+  cases h : resolveReal t p with
+  | none => simp [h]
+  | some q => simp [resolveReal_fixed t p q h]
+
 end Okane.Load
